@@ -209,3 +209,19 @@ func Handles(banks int, la, lb int) {
 	vp.Assert("interleaved-writers-each-continue-their-own-stream", vp.BytesEqual(r.Contents, shadow))
 	vp.Reach("end")
 }
+
+// Huge: a single write whose length does not fit 16 bits (64 KiB + extra) into a window of at most
+// 192 bytes: it cannot fit, so it is refused as a whole - an error, nothing stored. (Lengths are
+// compared in full width, not in their low 16 bits.)
+func Huge(banks int, extra int) {
+	r, shadow, addr, _, page := setup(banks)
+	vp.Assume(page >= 0xFF40)
+	p := make([]byte, 0x10000+extra)
+	p[0], p[1] = vp.U8("first"), vp.U8("second")
+	wr := r.BusWriter(addr)
+	n, err := wr.Write(p)
+	vp.Assert("write-is-complete-or-reports-an-error", err != nil || n == len(p))
+	vp.Assert("write-beyond-the-bank-is-refused", err != nil)
+	vp.Assert("failed-write-stores-nothing", err == nil || vp.BytesEqual(r.Contents, shadow))
+	vp.Reach("end")
+}
